@@ -670,6 +670,16 @@ def config_data(cfg):
     shift = cfg.get("shift")
     if shift is not None:
         series = [s + np.asarray(shift, dtype=float) for s in series]
+    if cfg.get("parent_views") and len(series) >= 2:
+        # the series are row-slice VIEWS of one recording, listed in another order than they sit in it (segments cut from a
+        # long record and re-ordered / a held-out segment first): same values as private copies
+        order = list(range(1, len(series))) + [0]
+        parent = np.ascontiguousarray(np.vstack([series[i] for i in order]))
+        offs, pos = {}, 0
+        for i in order:
+            offs[i] = pos
+            pos += series[i].shape[0]
+        series = [parent[offs[i]:offs[i] + series[i].shape[0]] for i in range(len(series))]
     dt = cfg.get("dtype")
     if dt is not None:
         # caller-side dtypes other than float64: integer counts / ADC readings (values scaled to a useful integer
@@ -700,6 +710,14 @@ def scalar_form(value, form):
 def config_kwargs(cfg):
     if cfg.get("beta_form"):
         cfg = dict(cfg, beta=scalar_form(cfg["beta"], cfg["beta_form"]))
+    if cfg.get("beta_zero_vector") is not None and not cfg["joint"] and not isinstance(cfg["beta"], np.ndarray):
+        # the switching cost as a per-pair vector: the constant with exact zeros at a few positions ("free" switches, the
+        # documented way to mark boundaries inside one stacked series)
+        npts = cfg["lens"][0] - cfg["W"] + 1
+        rs_ = np.random.RandomState(cfg["beta_zero_vector"] % 2 ** 31)
+        vec = np.full(npts, float(cfg["beta"]))
+        vec[rs_.rand(npts) < 0.08] = 0.0
+        cfg = dict(cfg, beta=vec)
     return dict(window_size=cfg["W"], num_clusters=cfg["K"], sparsity_weight=cfg["lam"],
                 label_switching_cost=cfg["beta"], iteration_limit=cfg["limit"],
                 min_meaningful_covariance=cfg.get("eps", 0), min_cluster_size=cfg["m"],
